@@ -120,6 +120,14 @@ impl<'de> ObjectJsonIter<'de> {
         {
             Ok(ret) => {
                 if let Some(Pair { key, val, status }) = ret {
+                    // a key borrowed from the inline copy of a short `FastStr` would dangle once
+                    // this iterator is gone (`collect`, `last`, …): hand out an owned key then
+                    let key = match key {
+                        Cow::Borrowed(k) if self.parser.read.is_inline_storage(k.as_bytes()) => {
+                            Cow::Owned(k.to_owned())
+                        }
+                        key => key,
+                    };
                     let val = self.parser.read.slice_ref(val);
                     Some(Ok(LazyValue::new(val, status.into())).map(|v| (key, v)))
                 } else {
